@@ -72,3 +72,64 @@ impl Clone for Block {
     #[verifier::external_body]
     fn clone(&self) -> (r: Self) ensures r == *self { unimplemented!() }
 }
+
+// ---- iterator-adapter desugarings used by the recount (R8); each is a verified loop, not a trusted stub
+pub open spec fn seq_sum(s: Seq<u64>, n: int) -> int
+    decreases n
+{
+    if n <= 0 { 0 } else { seq_sum(s, n - 1) + (if n - 1 < s.len() { s[n - 1] as int } else { 0 }) }
+}
+// `v.iter().take(n).copied().sum::<u64>()`  (A-ARITH: the sum of a topic's per-block entry counts fits in u64)
+pub fn vec_sum_prefix(v: &Vec<u64>, n: usize) -> (r: u64)
+    requires seq_sum(v@, v.len() as int) <= u64::MAX
+    ensures r as int == seq_sum(v@, if n <= v.len() { n as int } else { v.len() as int })
+{
+    let mut i: usize = 0;
+    let mut acc: u64 = 0;
+    let m = if n <= v.len() { n } else { v.len() };
+    proof { lemma_seq_sum_mono(v@, 0, v.len() as int); }
+    while i < m
+        invariant i <= m, m <= v.len(), acc as int == seq_sum(v@, i as int), seq_sum(v@, v.len() as int) <= u64::MAX,
+        decreases m - i,
+    {
+        proof { lemma_seq_sum_mono(v@, i + 1, v.len() as int); }
+        acc = acc + v[i];
+        i += 1;
+    }
+    acc
+}
+pub proof fn lemma_seq_sum_mono(s: Seq<u64>, a: int, b: int)
+    requires 0 <= a <= b
+    ensures seq_sum(s, a) <= seq_sum(s, b)
+    decreases b - a
+{
+    if a < b { lemma_seq_sum_mono(s, a, b - 1); }
+}
+// `v.get(i).copied().unwrap_or(0)`
+pub fn vec_get_or0(v: &Vec<u64>, i: usize) -> (r: u64)
+    ensures r == (if i < v.len() { v[i as int] } else { 0 })
+{
+    if i < v.len() { v[i] } else { 0 }
+}
+// `chain.get(i)`
+pub fn chain_get(chain: &Vec<Block>, i: usize) -> (r: Option<&Block>)
+    ensures match r { Some(b) => i < chain.len() && *b == chain[i as int], None => i >= chain.len() }
+{
+    if i < chain.len() { Some(&chain[i]) } else { None }
+}
+// `chain.iter().rev().position(|b| b.id == id)`: index counted from the back of the first match from the back
+pub fn chain_rev_position_id(chain: &Vec<Block>, id: u64) -> (r: Option<usize>)
+    ensures match r {
+        Some(p) => p < chain.len() && chain[chain.len() - 1 - p].id == id && forall|j: int| chain.len() - 1 - p < j < chain.len() ==> chain[j].id != id,
+        None => forall|j: int| 0 <= j < chain.len() ==> chain[j].id != id }
+{
+    let mut p: usize = 0;
+    while p < chain.len()
+        invariant p <= chain.len(), forall|j: int| chain.len() - p <= j < chain.len() ==> chain[j].id != id,
+        decreases chain.len() - p,
+    {
+        if chain[chain.len() - 1 - p].id == id { return Some(p); }
+        p += 1;
+    }
+    None
+}
